@@ -97,6 +97,7 @@ class NetworkxGraph(AbstractGraph):
         all_modules = parent_modules + [child]
         for parent, child in zip(all_modules[:-1], all_modules[1:]):
             self._create_node(parent)
+            self._create_node(child)
             self._create_edge(parent, child, inherits=True)
 
     def _create_node(self, node: Node) -> None:
